@@ -106,6 +106,7 @@ def run(res, programs, tier):
             c17._inventory(res, P, P.name)
             c17._r17_3(res, P, P.name)
             c17b._r17_8c(res, P, P.name)
+            c17b._r17_11(res, P, P.name)     # zeroize (feature build) resets to the canonical zero
     from . import fdt_tables
     fdt_tables.r05_3(res, programs)
     # R05.3c: the log2-estimate shortcuts of the comparison kernels are conservative (shared polarity rule)
